@@ -41,9 +41,8 @@ from twisted.internet.testing import StringTransport
 # the specification side (RFC 854), independent of telnet.py
 # ----------------------------------------------------------------------------------------------------------------
 
-_IAC, _SB, _SE = 0xFF, 0xFA, 0xF0
-_OPTION_VERBS = b"\xfb\xfc\xfd\xfe"  # WILL WONT DO DONT: followed by one option octet
-
+# IAC = FF; SB = FA, SE = F0 bracket a subnegotiation; WILL WONT DO DONT = FB..FE are followed by one option octet;
+# IAC followed by any other octet is a one-octet command; CR is only ever followed by LF or NUL
 _TOKEN = re.compile(
     b"(?P<iac2>\xff\xff)"
     b"|(?P<sub>\xff\xfa(?:[^\xff]|\xff[^\xf0])*\xff\xf0)"
@@ -261,6 +260,8 @@ def with_empties(ops):
 # (just below the command range)
 ALPHA_CORE = b"\xff\na\x00\xfb\xfa\xf0"
 ALPHA_WIDE = b"\xff\na\x00\xfb\xfa\xf0\xfe\xf1\xef\xee\x01"
+ALPHA_MID = b"\xff\na\x00\xfb\xfa\xf0\xfe\xf1"
+ALPHA_SMALL = b"\xff\na\xfb\xf0"
 
 
 def strings(alpha, upto):
@@ -278,7 +279,8 @@ class WriteGroupings(Bounded):
     title = ("every write / writeSequence grouping of every short string: wire has LF as CR LF and reads back per "
              "RFC 854; the real peer, fed whole and byte at a time, hands its application exactly the string")
     scope = ("CR-free strings of <= 3 bytes over {FF, LF, 'a', NUL, WILL, SB, SE, DONT, NOP, EOR, EE, 01} and of 4 "
-             "bytes over {FF, LF, 'a', NUL, WILL, SB, SE} (thorough: <= 4 over the 12 and 5 over the 7); every "
+             "bytes over {FF, LF, 'a', NUL, WILL, SB, SE} (thorough: also 4 bytes over {FF, LF, 'a', NUL, WILL, SB, "
+             "SE, DONT, NOP} and 5 bytes over {FF, LF, 'a', WILL, SE}); every "
              "composition into non-empty pieces x every composition of the pieces into calls x write-or-"
              "writeSequence for one-piece calls; for strings of <= 2 bytes also every insertion of write(b''), "
              "writeSequence([]), writeSequence([b'']) and of an empty element into a sequence; wire delivered whole "
@@ -287,22 +289,23 @@ class WriteGroupings(Bounded):
                  "ProtocolTransportMixin.writeSequence", "Telnet.dataReceived", "TelnetTransport.applicationDataReceived"]
 
     def cases(self, tier, rng):
-        wide, core = (3, 4) if tier == "quick" else (4, 5)
-        seen_short = set()
-        for data in strings(ALPHA_WIDE, wide):
-            for ops in groupings(data):
-                yield (ops,)
-                if len(data) <= 2:
-                    for v in with_empties(ops):
-                        if v not in seen_short:
-                            seen_short.add(v)
-                            yield (v,)
-        wide_set = set(ALPHA_WIDE)
-        for data in strings(ALPHA_CORE, core):
-            if len(data) <= wide and set(data) <= wide_set:
-                continue  # already enumerated above
-            for ops in groupings(data):
-                yield (ops,)
+        if tier == "quick":
+            layers = ((ALPHA_WIDE, 3), (ALPHA_CORE, 4))
+        else:
+            layers = ((ALPHA_WIDE, 3), (ALPHA_MID, 4), (ALPHA_CORE, 4), (ALPHA_SMALL, 5))
+        seen, seen_short = set(), set()
+        for alpha, upto in layers:
+            for data in strings(alpha, upto):
+                if data in seen:
+                    continue
+                seen.add(data)
+                for ops in groupings(data):
+                    yield (ops,)
+                    if len(data) <= 2:
+                        for v in with_empties(ops):
+                            if v not in seen_short:
+                                seen_short.add(v)
+                                yield (v,)
 
     def nontrivial(self, case):
         return has_special(case[0])
@@ -328,16 +331,16 @@ class WireSplits(Bounded):
     title = ("every 2-way and 3-way split and the byte-at-a-time delivery of the wire stream of every short string: "
              "the real peer hands its application exactly the string and sees no command")
     scope = ("CR-free strings of <= 4 (thorough 5) bytes over {FF, LF, 'a', NUL, WILL, SB, SE} plus strings of <= 3 "
-             "over the 12-byte alphabet; each sent (a) with one write, (b) with one writeSequence of the whole "
+             "over the 12-byte alphabet (thorough: plus 6 bytes over {FF, LF, 'a', WILL, SE}); each sent (a) with one write, (b) with one writeSequence of the whole "
              "string, (c) byte by byte alternating write and writeSequence; every 2-way and 3-way split of the "
              "resulting wire stream, whole, and byte at a time; exhaustive")
     functions = ["TelnetTransport.write", "TelnetTransport.writeSequence", "Telnet.dataReceived",
                  "TelnetTransport.applicationDataReceived"]
 
     def cases(self, tier, rng):
-        core = 4 if tier == "quick" else 5
+        core, small = (4, 0) if tier == "quick" else (5, 6)
         seen = set()
-        for data in itertools.chain(strings(ALPHA_CORE, core), strings(ALPHA_WIDE, 3)):
+        for data in itertools.chain(strings(ALPHA_CORE, core), strings(ALPHA_WIDE, 3), strings(ALPHA_SMALL, small)):
             if data in seen:
                 continue
             seen.add(data)
@@ -366,7 +369,7 @@ class RandomRich(Bounded):
     prop = "C38"
     title = ("seeded random CR-free strings rich in FF, LF and command bytes, random write/writeSequence groupings, "
              "random wire splits: wire reads back per RFC 854 with LF as CR LF, real peer application gets the string")
-    scope = ("quick 1500 / thorough 25000 seeded random cases: 0..48 (thorough 0..200) bytes, ~30% FF, ~20% LF, ~30% "
+    scope = ("quick 4000 / thorough 25000 seeded random cases: 0..48 (thorough 0..200) bytes, ~30% FF, ~20% LF, ~30% "
              "bytes F0..FE, rest any byte but CR; random cut into pieces (some empty), random grouping into write / "
              "writeSequence calls; 4 random segmentations of the wire (0..all cut points) plus whole and byte at a "
              "time; not exhaustive (sampled)")
@@ -374,7 +377,7 @@ class RandomRich(Bounded):
                  "TelnetTransport.applicationDataReceived"]
 
     def cases(self, tier, rng):
-        count, maxlen = (1500, 48) if tier == "quick" else (25000, 200)
+        count, maxlen = (4000, 48) if tier == "quick" else (25000, 200)
         for _ in range(count):
             n = rng.randint(0, maxlen) if rng.random() < 0.7 else rng.randint(0, 8)
             data = bytes(self._byte(rng) for _ in range(n))
